@@ -32,7 +32,7 @@ LABELSETS = [None, ["1", "2"], ["a", "b", "c"], ["Up", "DOWN", "mid"], ["-1", "1
 def cases(tier, seed):
     for ds in DATASETS:
         yield {"kind": "dataset", "name": ds}
-    for ds in ("ArrowHead", "GunPoint"):
+    for ds in ("ArrowHead", "GunPoint", "BasicMotions"):          # the last one is multivariate and ships .ts / .arff only
         yield {"kind": "formats", "name": ds}
     rng = np.random.default_rng([seed, 18])
     for i in range(60 if tier == "quick" else 2500):
@@ -266,15 +266,17 @@ def _formats(case, ctx):
     base = os.path.join(os.path.dirname(sktime.__file__), "datasets", "data", case["name"], case["name"] + "_TRAIN")
     ok1, a = ctx.call("formats:ts-exception", load_from_tsfile_to_dataframe, base + ".ts")
     ok2, b = ctx.call("formats:arff-exception", load_from_arff_to_dataframe, base + ".arff")
-    ok3, c = ctx.call("formats:tsv-exception", load_from_ucr_tsv_to_dataframe, base + ".tsv")
+    has_tsv = os.path.exists(base + ".tsv")
+    ok3, c = ctx.call("formats:tsv-exception", load_from_ucr_tsv_to_dataframe, base + ".tsv") if has_tsv else (True, (None, None))
     if not (ok1 and ok2 and ok3):
         return
     (Xa, ya), (Xb, yb), (Xc, yc) = a, b, c
-    for name, X2, y2 in (("arff", Xb, yb), ("tsv", Xc, yc)):
+    for name, X2, y2 in (("arff", Xb, yb),) + ((("tsv", Xc, yc),) if has_tsv else ()):
         same, where = _cells_equal(Xa, X2, 1e-4)
         ctx.check("cross-format", same, "cross-format:%s-panel-differs-from-ts" % name, ".%s and .ts files of the same data set parse to different panels (%s)" % (name, where))
         la, l2 = [str(v) for v in ya], [str(int(float(v))) if str(v).replace(".", "").replace("-", "").isdigit() else str(v) for v in y2]
         la = [str(int(float(v))) if v.replace(".", "").replace("-", "").isdigit() else v for v in la]
+        la, l2 = [v.lower() for v in la], [v.lower() for v in l2]          # the .ts parser normalises the letter case of labels (stated in the property)
         ctx.check("cross-format", la == l2, "cross-format:%s-labels-differ-from-ts" % name, "labels differ between .%s and .ts" % name, ts=la[:6], other=l2[:6])
     # single-frame forms
     ok, fa = ctx.call("formats:ts-frame-exception", load_from_tsfile_to_dataframe, base + ".ts", return_separate_X_and_y=False)
